@@ -28,6 +28,9 @@ type Case struct {
 	// Quiet (API tier): the first attempt ends like a killed process - the write that would record the failure is lost, so
 	// the stored revision has Applied=K and no error text
 	Quiet bool `json:"quiet,omitempty"`
+	// NoHashes (API tier): the stored partial revision carries no statement checksums (a row written before the
+	// partial_hashes column existed). The run must not crash: it resumes, or it refuses without executing anything.
+	NoHashes bool `json:"no_hashes,omitempty"`
 }
 
 func stmtText(id int) string { return fmt.Sprintf("INSERT INTO journal (id) VALUES (%d);", id) }
@@ -125,6 +128,27 @@ func checkAPI(c Case) error {
 	}
 	drv.FailIf = nil
 	drv.Log = nil
+	if c.NoHashes {
+		b := before
+		b.PartialHashes = nil
+		if err := revs.WriteRevision(ctx, &b); err != nil {
+			return fmt.Errorf("harness: %v", err)
+		}
+		before = revs.Snapshot()["1"]
+		err = ex.ExecuteN(ctx, 0)
+		after := revs.Snapshot()["1"]
+		if err != nil {
+			if len(drv.Log) != 0 {
+				return fmt.Errorf("partial revision without statement checksums: the run is refused (%v) but executed %d statements: %+v", err, len(drv.Log), drv.Log)
+			}
+			return revEq(before, after)
+		}
+		want := c.New[min(c.K, len(c.New)):]
+		if len(drv.Log) != len(want) {
+			return fmt.Errorf("partial revision without statement checksums: the run succeeded and executed %d statements, want the tail %v: %+v", len(drv.Log), want, drv.Log)
+		}
+		return nil
+	}
 	if c.K2 > c.K && c.K2 < len(c.New) && c.prefixUnchanged() {
 		// second partial failure during the resume, then a third, clean run: it must continue at K2
 		drv.ResetCalls()
@@ -172,9 +196,8 @@ func checkAPI(c Case) error {
 				return fmt.Errorf("resume statement %d = %q, want %q", i, drv.Log[i].Text, stmtText(id))
 			}
 		}
-		// The error of the failed attempt is cleared by the first statement that succeeds ("in case retry
-		// attempts succeeded, clean up the error"); with an empty new tail nothing runs and it may stay.
-		if after.Applied != len(c.New) || (len(want) > 0 && after.Error != "") {
+		// a file that was completed carries no error, also when the failing tail was deleted and nothing was left to run
+		if after.Applied != len(c.New) || after.Error != "" || after.ErrorStmt != "" {
 			return fmt.Errorf("after resume: revision %+v, want Applied=%d and no error", after, len(c.New))
 		}
 		return nil
